@@ -104,7 +104,13 @@ fn test_values(kind: &str, f: &Value) -> Vec<FV> {
         "text" => match (kind, fname(f)) {
             ("VER", "Version") => vec![FV::Text(b"0.7F".to_vec()), FV::Text(b"0.6U12".to_vec())],
             (_, "Track") => crate::pkt::all_track_codes().iter().map(|c| FV::Text(c.as_bytes().to_vec())).collect(),
-            _ => vec![FV::Text(b"x".to_vec()), FV::Text((0..w).map(|i| b'A' + (i % 26) as u8).collect()), FV::Text(vec![])],
+            // every text field carries LFS codepage text (appendix section D) — a Latin-1 byte reads as that character;
+            // the one exception is the admin password of IS_ISI, which the crate documents as the string's own bytes
+            (k, n) => {
+                let mut v = vec![FV::Text(b"x".to_vec()), FV::Text((0..w).map(|i| b'A' + (i % 26) as u8).collect()), FV::Text(vec![])];
+                if w >= 4 && !(k == "ISI" && n == "Admin") { v.push(FV::Text(b"caf\xe9".to_vec())); }
+                v
+            },
         },
         // … and mod ids on every side of the "three alphanumerics + NUL" boundary: one non-alphanumeric byte in each
         // position, three alphanumerics with a non-zero fourth byte
@@ -231,7 +237,7 @@ fn compare(f: &Value, want: &FV, got: &Value) -> Cmp {
         },
         ("text", FV::Text(t)) => match got {
             Value::String(s) => {
-                let want_s = String::from_utf8_lossy(t).to_string();
+                let want_s = if t.is_ascii() { String::from_utf8_lossy(t).to_string() } else { insim_core::string::codepages::to_lossy_string(t).to_string() };
                 if *s == want_s || (fname(f) == "Track" && s.eq_ignore_ascii_case(&want_s)) { Cmp::Ok } else { bad(format!("text {:?}", want_s)) }
             },
             _ => Cmp::Untyped,
